@@ -944,6 +944,7 @@ func calleeName(info *types.Info, call *ast.CallExpr) string {
 // checkLockBalance: in every function of pkgs, no mutex acquired in the function may still be
 // held at a normal exit (may-analysis; deferred unlocks count as released). except: funcKey -> reason.
 func checkLockBalance(r *Reporter, p *Prog, rule string, pkgs []string, except map[string]string, only func(fkey string) bool) {
+	checkValueReceiverWrites(r, p, pkgs, only)
 	for _, pkg := range pkgs {
 		pk := p.Pkg(pkg)
 		if pk == nil {
@@ -1153,11 +1154,11 @@ func checkLockOrder(r *Reporter, p *Prog, rule string, o lockOrderOpts) {
 		})
 	}
 	// calleeAcqs translates a callee's summary to the caller's frame
-	translate := func(fi *fnInfo, c *ast.CallExpr, callee *types.Func) []acq {
+	translateSel := func(fi *fnInfo, se *ast.SelectorExpr, callee *types.Func) []acq {
 		var out []acq
 		cs := fns[callee]
 		recvPath := ""
-		if se, ok := c.Fun.(*ast.SelectorExpr); ok {
+		if se != nil {
 			if sel := fi.info.Selections[se]; sel != nil && sel.Kind() == types.MethodVal {
 				if bp, ok := pathOf(fi.info, se.X); ok {
 					recvPath = bp + embeddedChain(sel, len(sel.Index())-1)
@@ -1167,7 +1168,7 @@ func checkLockOrder(r *Reporter, p *Prog, rule string, o lockOrderOpts) {
 		for _, a := range cs.summary {
 			b := a
 			if a.rel != "" && recvPath != "" {
-				b.rel = recvPath + a.rel // absolute in caller frame
+				b.rel = canonPath(recvPath + a.rel) // absolute in caller frame
 			} else {
 				b.rel = ""
 			}
@@ -1175,6 +1176,40 @@ func checkLockOrder(r *Reporter, p *Prog, rule string, o lockOrderOpts) {
 		}
 		sort.Slice(out, func(i, j int) bool { return out[i].class+out[i].rel < out[j].class+out[j].rel })
 		return out
+	}
+	translate := func(fi *fnInfo, c *ast.CallExpr, callee *types.Func) []acq {
+		se, _ := c.Fun.(*ast.SelectorExpr)
+		return translateSel(fi, se, callee)
+	}
+	// a method value handed to a callee that runs its function argument before returning (the policy
+	// for literals): the method it denotes, or nil
+	syncMethodValue := func(fi *fnInfo, opts *FlowOpts, se *ast.SelectorExpr, stack []ast.Node) *types.Func {
+		sel := fi.info.Selections[se]
+		if sel == nil || sel.Kind() != types.MethodVal {
+			return nil
+		}
+		fn, _ := sel.Obj().(*types.Func)
+		if fn == nil || fns[fn.Origin()] == nil {
+			return nil
+		}
+		for i := len(stack) - 1; i >= 0; i-- {
+			if _, isParen := stack[i].(*ast.ParenExpr); isParen {
+				continue
+			}
+			c, ok := stack[i].(*ast.CallExpr)
+			if !ok || ast.Unparen(c.Fun) == ast.Expr(se) {
+				return nil
+			}
+			for _, a := range c.Args {
+				if ast.Unparen(a) == ast.Expr(se) && opts.SyncCallee != nil && opts.SyncCallee(c) {
+					if _, isGo := stackHasGoOrDefer(stack, c); !isGo {
+						return fn.Origin()
+					}
+				}
+			}
+			return nil
+		}
+		return nil
 	}
 	// fixpoint of summaries (receiver-relative where the call is on the receiver)
 	for changed, rounds := true, 0; changed && rounds < 50; rounds++ {
@@ -1189,21 +1224,35 @@ func checkLockOrder(r *Reporter, p *Prog, rule string, o lockOrderOpts) {
 				if !ok {
 					return true
 				}
+				merge := func(as []acq) {
+					for _, a := range as {
+						b := acq{class: a.class, mode: a.mode, where: a.where}
+						if a.rel != "" {
+							b.rel = relOf(fi, a.rel)
+						}
+						k := b.class + "|" + b.rel + "|" + b.mode.String()
+						if _, ok := fi.summary[k]; !ok {
+							fi.summary[k] = b
+							changed = true
+						}
+					}
+				}
+				// method values among the arguments of a synchronous callee run inside this call
+				sync := syncCalleeDefault(fi.info)
+				for _, a := range c.Args {
+					if mse, isSel := ast.Unparen(a).(*ast.SelectorExpr); isSel && sync(c) {
+						if sel := fi.info.Selections[mse]; sel != nil && sel.Kind() == types.MethodVal {
+							if mfn, _ := sel.Obj().(*types.Func); mfn != nil && fns[mfn.Origin()] != nil {
+								merge(translateSel(fi, mse, mfn.Origin()))
+							}
+						}
+					}
+				}
 				callee := staticCallee(fi.info, c)
 				if callee == nil || fns[callee] == nil {
 					return true
 				}
-				for _, a := range translate(fi, c, callee) {
-					b := acq{class: a.class, mode: a.mode, where: a.where}
-					if a.rel != "" {
-						b.rel = relOf(fi, a.rel)
-					}
-					k := b.class + "|" + b.rel + "|" + b.mode.String()
-					if _, ok := fi.summary[k]; !ok {
-						fi.summary[k] = b
-						changed = true
-					}
-				}
+				merge(translate(fi, c, callee))
 				return true
 			})
 		}
@@ -1231,31 +1280,66 @@ func checkLockOrder(r *Reporter, p *Prog, rule string, o lockOrderOpts) {
 		})
 		seen := map[ast.Node]bool{}
 		fresh := freshLocals(fi.info, fi.fd.Body)
+		fieldAlias = computeFieldAliases(fi.info, fi.fd.Body)
 		AnalyzeLocks(fi.fd.Body, LockSet{}, opts, func(n ast.Node, stack []ast.Node, held LockSet) {
-			c, ok := n.(*ast.CallExpr)
-			if !ok || len(held) == 0 || seen[c] {
-				return
-			}
-			if len(stack) > 0 {
-				if _, isDefer := stack[len(stack)-1].(*ast.DeferStmt); isDefer {
-					return
-				}
-			}
-			seen[c] = true
+			var c *ast.CallExpr
 			var news []acq
-			if op, path := lockOp(fi.info, c); op == "Lock" || op == "RLock" {
-				m := ModeW
-				if op == "RLock" {
-					m = ModeR
+			var site ast.Node
+			viaName := ""
+			// mutexes of an object still private to this function are not ordered against anything - but
+			// a mutex the fresh object merely points to (a field aliased to shared state) is
+			dropFresh := func(recvX ast.Expr, as []acq) []acq {
+				ro := rootObj(fi.info, recvX)
+				if ro == nil || !fresh[ro] {
+					return as
 				}
-				news = append(news, acq{class: lockClassOf(fi.info, c), rel: path, mode: m, where: p.posStr(c.Pos())})
-			} else if callee := staticCallee(fi.info, c); callee != nil && fns[callee] != nil {
-				if se, ok := c.Fun.(*ast.SelectorExpr); ok {
-					if ro := rootObj(fi.info, se.X); ro != nil && fresh[ro] {
-						return // receiver is an object still private to this function
+				tok := fmt.Sprintf("%s@%d", ro.Name(), ro.Pos())
+				var out []acq
+				for _, a := range as {
+					if a.rel != "" && !strings.HasPrefix(a.rel, tok) {
+						out = append(out, a)
 					}
 				}
-				news = translate(fi, c, callee)
+				return out
+			}
+			switch x := n.(type) {
+			case *ast.SelectorExpr:
+				if len(held) == 0 || seen[x] {
+					return
+				}
+				mfn := syncMethodValue(fi, opts, x, stack)
+				if mfn == nil {
+					return
+				}
+				seen[x] = true
+				news = dropFresh(x.X, translateSel(fi, x, mfn))
+				site, viaName = x, mfn.Name()
+			case *ast.CallExpr:
+				c = x
+				if len(held) == 0 || seen[c] {
+					return
+				}
+				if len(stack) > 0 {
+					if _, isDefer := stack[len(stack)-1].(*ast.DeferStmt); isDefer {
+						return
+					}
+				}
+				seen[c] = true
+				site, viaName = c, calleeOrLock(fi.info, c)
+				if op, path := lockOp(fi.info, c); op == "Lock" || op == "RLock" {
+					m := ModeW
+					if op == "RLock" {
+						m = ModeR
+					}
+					news = append(news, acq{class: lockClassOf(fi.info, c), rel: path, mode: m, where: p.posStr(c.Pos())})
+				} else if callee := staticCallee(fi.info, c); callee != nil && fns[callee] != nil {
+					news = translate(fi, c, callee)
+					if se, ok := c.Fun.(*ast.SelectorExpr); ok {
+						news = dropFresh(se.X, news)
+					}
+				}
+			default:
+				return
 			}
 			for _, a := range news {
 				for hp, hm := range held {
@@ -1271,18 +1355,19 @@ func checkLockOrder(r *Reporter, p *Prog, rule string, o lockOrderOpts) {
 							if a.mode == ModeR && hm == ModeR {
 								kind = "recursive read lock (deadlocks when a writer queues between the two acquisitions)"
 							}
-							r.Fail(rule, fmt.Sprintf("reacquire %s in %s via %s", hc, fkey, calleeOrLock(fi.info, c)), p.posStr(c.Pos()),
+							r.Fail(rule, fmt.Sprintf("reacquire %s in %s via %s", hc, fkey, viaName), p.posStr(site.Pos()),
 								fmt.Sprintf("%s: %s already held %s, acquired again %s at %s", kind, displayPath(hp), hm, a.mode, a.where))
 						}
 						continue
 					}
 					e := edge{hc, a.class}
 					if _, ok := edges[e]; !ok {
-						edges[e] = fmt.Sprintf("%s (%s holds %s, acquires %s at %s)", p.posStr(c.Pos()), fkey, displayPath(hp), a.class, a.where)
+						edges[e] = fmt.Sprintf("%s (%s holds %s, acquires %s at %s)", p.posStr(site.Pos()), fkey, displayPath(hp), a.class, a.where)
 					}
 				}
 			}
 		})
+		fieldAlias = map[string]string{}
 	}
 	r.Count(nEdgesSites)
 	// cycles
@@ -1398,4 +1483,124 @@ func stackHasGoOrDefer(stack []ast.Node, c *ast.CallExpr) (ast.Node, bool) {
 		}
 	}
 	return nil, false
+}
+
+// checkValueReceiverWrites: state/value-receiver-write. A method declared with a VALUE receiver that
+// assigns a field of its receiver (or increments it) updates a copy; unless the method hands the
+// modified copy on (returns it, stores it, passes it as an argument - the builder idiom
+// `func (ts T) WithX(x) T { ts.x = x; return ts }`), the update is lost: the object the caller holds is
+// unchanged. Every property about state that must change (a lease that must be emptied, an error that
+// must be recorded, an entry that must be removed) has this as a necessary condition of the methods
+// of the anchored packages; struct-with-method conversions of closures are where it goes wrong.
+func checkValueReceiverWrites(r *Reporter, p *Prog, pkgs []string, only func(fkey string) bool) {
+	for _, pkg := range pkgs {
+		pk := p.Pkg(pkg)
+		if pk == nil {
+			continue
+		}
+		info := pk.TypesInfo
+		n := 0
+		var bad []string
+		for _, fd := range p.AllFuncDecls(pkg) {
+			if fd.Body == nil || fd.Recv == nil || len(fd.Recv.List) != 1 || strings.HasSuffix(p.Fset.Position(fd.Pos()).Filename, "_test.go") {
+				continue
+			}
+			if _, isPtr := fd.Recv.List[0].Type.(*ast.StarExpr); isPtr {
+				continue
+			}
+			ro := recvObj(info, fd)
+			if ro == nil {
+				continue
+			}
+			// reference-like receivers (maps, slices, channels, pointers, interfaces, funcs) are not copies
+			switch ro.Type().Underlying().(type) {
+			case *types.Struct, *types.Array:
+			default:
+				continue
+			}
+			n++
+			var writes []string
+			handedOn := false
+			var stack []ast.Node
+			ast.Inspect(fd.Body, func(m ast.Node) bool {
+				if m == nil {
+					stack = stack[:len(stack)-1]
+					return true
+				}
+				stack = append(stack, m)
+				switch x := m.(type) {
+				case *ast.AssignStmt:
+					for _, l := range x.Lhs {
+						if se, ok := ast.Unparen(l).(*ast.SelectorExpr); ok && rootObj(info, se.X) == ro {
+							if sel := info.Selections[se]; sel != nil && sel.Kind() == types.FieldVal && !throughPointer(info, se.X) {
+								writes = append(writes, p.posStr(l.Pos())+" "+exprKey(l))
+							}
+						}
+						if ix, ok := ast.Unparen(l).(*ast.IndexExpr); ok && objOfIdent(info, ix.X) == ro {
+							if _, isArr := ro.Type().Underlying().(*types.Array); isArr {
+								writes = append(writes, p.posStr(l.Pos())+" "+exprKey(l))
+							}
+						}
+					}
+				case *ast.IncDecStmt:
+					if se, ok := ast.Unparen(x.X).(*ast.SelectorExpr); ok && rootObj(info, se.X) == ro && !throughPointer(info, se.X) {
+						if sel := info.Selections[se]; sel != nil && sel.Kind() == types.FieldVal {
+							writes = append(writes, p.posStr(x.Pos())+" "+exprKey(x.X)+x.Tok.String())
+						}
+					}
+				case *ast.Ident:
+					// the receiver as a whole value: returned, stored, passed on, or its address taken
+					if info.Uses[x] != ro || len(stack) < 2 {
+						return true
+					}
+					switch par := stack[len(stack)-2].(type) {
+					case *ast.SelectorExpr:
+						// a field or method of it: not a use of the whole value (pointer-receiver method
+						// calls on the addressable copy are writes to the copy as well, but they do not
+						// hand the copy on)
+						_ = par
+					default:
+						handedOn = true
+					}
+				}
+				return true
+			})
+			if len(writes) > 0 && !handedOn {
+				bad = append(bad, fmt.Sprintf("%s.%s has a value receiver and assigns %s: the caller's object is not changed", recvTypeName(fd), fd.Name.Name, writes[0]))
+			}
+		}
+		if len(bad) > 0 {
+			r.Fail("state/value-receiver-write", pkg, "-", bad[0], bad...)
+		} else {
+			r.Pass("state/value-receiver-write", pkg, "-", fmt.Sprintf("%d method(s) with a struct value receiver: none assigns a field of a receiver copy it does not hand on", n))
+		}
+	}
+}
+
+// throughPointer: the path from the root variable to e passes a pointer (the write lands in the shared
+// pointee, not in the copy).
+func throughPointer(info *types.Info, e ast.Expr) bool {
+	for {
+		switch x := ast.Unparen(e).(type) {
+		case *ast.SelectorExpr:
+			if t := info.TypeOf(x); t != nil {
+				if _, isPtr := t.Underlying().(*types.Pointer); isPtr {
+					return true
+				}
+			}
+			e = x.X
+		case *ast.StarExpr:
+			return true
+		case *ast.IndexExpr:
+			if t := info.TypeOf(x.X); t != nil {
+				switch t.Underlying().(type) {
+				case *types.Slice, *types.Map, *types.Pointer:
+					return true
+				}
+			}
+			e = x.X
+		default:
+			return false
+		}
+	}
 }
